@@ -26,7 +26,7 @@ var corruptKinds = []string{
 	"bitflip", "truncate", "dup_line", "swap_lines", "drop_line", "conflict_markers", "junk_line", "unknown_type", "wrong_field_type",
 	"bad_timestamp", "dup_create", "binary", "empty", "whitespace", "no_final_newline", "crlf", "bom", "nul_bytes", "json_scalar_line",
 	"missing_data", "deep_nesting", "long_line_64k", "extra_fields", "blank_lines", "tombstone_first", "state_before_create", "invalid_utf8",
-	"unknown_state", "self_link", "cycle_links", "bad_link_kind", "big_tail_no_newline", "huge_line",
+	"unknown_state", "self_link", "cycle_links", "bad_link_kind", "big_tail_no_newline", "long_line_2m", "huge_line",
 }
 
 func splitKeep(b []byte) [][]byte {
@@ -169,6 +169,10 @@ func applyCorruption(log []byte, kind string, pos int, arg string, liveID, other
 	case "long_line_64k":
 		n := 65536 - 200 + pos%400
 		return insert(at(len(ls)+1), `{"type":"body","ts":"`+ts+`","data":{"id":"`+liveID+`","body":"`+strings.Repeat("x", n)+`","ts":"`+ts+`"}}`+"\n")
+	case "long_line_2m":
+		// a valid event of a couple of MB: well inside what the format admits
+		n := 2*1024*1024 + pos%4096
+		return insert(at(len(ls)+1), `{"type":"body","ts":"`+ts+`","data":{"id":"`+liveID+`","body":"`+strings.Repeat("w", n)+`","ts":"`+ts+`"}}`+"\n")
 	case "huge_line":
 		n := 10*1024*1024 + 1000
 		return insert(at(len(ls)+1), `{"type":"body","ts":"`+ts+`","data":{"id":"`+liveID+`","body":"`+strings.Repeat("y", n)+`","ts":"`+ts+`"}}`+"\n")
